@@ -5,6 +5,7 @@ from fractions import Fraction
 from nl_table import NL_TABLE
 
 OBLIGATION_MODULES = ["PyModeS.Properties.C06"]
+TIE_MODULES = ["PyModeS.Tie.NLGuard"]
 MAIN_THEOREM = "PyModeS.C06.nlStair_* (staircase laws) / cprNL_eq_stair"
 RULE = ("regular latitude grid over [-90, 90] plus every double within +-256 ulp of each signed transition latitude, 0, +-87, +-90; "
         "non-trivial = |lat| not within 1e-9 degree of a transition (single admissible value)")
